@@ -273,6 +273,8 @@ Definition audited_map_sites : list str := [
   B [99;97;114;97;112;97;99;101;46;103;111;58;67;97;114;97;112;97;99;101;46;70;108;97;103;67;111;109;112;108;101;116;105;111;110;58;32;114;97;110;103;101;32;97;99;116;105;111;110;115];
   (* values keyed by value, sorted by (display, value) afterwards *)
   B [100;105;102;102;46;103;111;58;68;105;102;102;58;32;114;97;110;103;101;32;109;101;114;103;101;100];
+  (* copies every entry into a fresh map: order irrelevant *)
+  B [105;110;116;101;114;110;97;108;47;99;111;109;109;111;110;47;109;101;115;115;97;103;101;46;103;111;58;77;101;115;115;97;103;101;115;46;67;108;111;110;101;58;32;114;97;110;103;101;32;109;46;109;101;115;115;97;103;101;115];
   (* sorted afterwards / set operations *)
   B [105;110;116;101;114;110;97;108;47;99;111;109;109;111;110;47;109;101;115;115;97;103;101;46;103;111;58;77;101;115;115;97;103;101;115;46;71;101;116;58;32;114;97;110;103;101;32;109;46;109;101;115;115;97;103;101;115];
   B [105;110;116;101;114;110;97;108;47;99;111;109;109;111;110;47;109;101;115;115;97;103;101;46;103;111;58;77;101;115;115;97;103;101;115;46;73;110;116;101;103;114;97;116;101;58;32;114;97;110;103;101;32;109;46;109;101;115;115;97;103;101;115];
